@@ -10,6 +10,8 @@
 #include <cstdint>
 #include <cstdlib>
 #include <cstdio>
+#include <cfloat>
+#include <limits>
 #include <gmp.h>
 #include <signal.h>
 #include <unistd.h>
@@ -142,6 +144,13 @@ static std::string run(const std::string& v, const std::vector<std::string>& a) 
     }
     if (v == "consts") {
         return str(Rational::zero) + " " + str(Rational::one) + " " + str(Rational::mOne) + " " + str(Q.zero) + " " + str(Q.one) + " " + str(Q.mOne);
+    }
+    if (v == "platform") {   // the platform parameters the model hard-codes (limb width, binary64 / binary32 formats, evaluation method)
+        o << "limb_bits=" << mp_bits_per_limb << " limb_bytes=" << sizeof(mp_limb_t) << " dbl_mant=" << DBL_MANT_DIG << " dbl_max_exp=" << DBL_MAX_EXP
+          << " dbl_min_exp=" << DBL_MIN_EXP << " dbl_bytes=" << sizeof(double) << " flt_mant=" << FLT_MANT_DIG << " flt_max_exp=" << FLT_MAX_EXP
+          << " flt_min_exp=" << FLT_MIN_EXP << " flt_bytes=" << sizeof(float) << " flt_eval_method=" << FLT_EVAL_METHOD
+          << " dbl_denorm=" << (std::numeric_limits<double>::has_denorm == std::denorm_present) << " gmp=" << gmp_version;
+        return o.str();
     }
     if (v == "q.consts2") {   // QField built from an arbitrary object; characteristic / cardinality / domain comparison
         QField<Rational> Q2(5); Integer ch(9), ca(9); Q2.characteristic(ch); Q2.cardinality(ca);
